@@ -352,24 +352,18 @@ func (c *clipperBase) fixSelfIntersects(outrec *OutRec) {
 
 	for {
 		if segsIntersect(op2.prev.pt, op2.pt, op2.next.pt, op2.next.next.pt, false) {
-			if segsIntersect(op2.prev.pt, op2.pt, op2.next.next.next.pt, op2.next.next.next.next.pt, false) {
-				op2 = duplicateOp(op2, false)
-				op2.pt = op2.next.next.next.pt
-				op2 = op2.next
-			} else {
-				if op2 == outrec.pts || op2.next == outrec.pts {
-					outrec.pts = outrec.pts.prev
-				}
-				c.doSplitOp(outrec, op2)
-				if outrec.pts == nil {
-					return
-				}
-				op2 = outrec.pts
-				if op2.prev == op2.next.next {
-					break
-				}
-				continue
+			if op2 == outrec.pts || op2.next == outrec.pts {
+				outrec.pts = outrec.pts.prev
 			}
+			c.doSplitOp(outrec, op2)
+			if outrec.pts == nil {
+				return
+			}
+			op2 = outrec.pts
+			if op2.prev == op2.next.next {
+				break
+			}
+			continue
 		}
 		op2 = op2.next
 		if op2 == outrec.pts {
